@@ -1129,6 +1129,14 @@ class WorkflowConductor(object):
         ):
             self.request_workflow_status(statuses.CANCELING)
 
+        # Likewise if the task event puts the workflow in pausing (i.e. the action execution is
+        # pending or paused on its own), otherwise the workflow never reaches paused.
+        if (
+            old_workflow_status not in statuses.PAUSE_STATUSES
+            and self.get_workflow_status() == statuses.PAUSING
+        ):
+            self.request_workflow_status(statuses.PAUSING)
+
         # Process any engine commands in the queue.
         while not engine_event_queue.empty():
             next_task_id, next_task_route = engine_event_queue.get()
